@@ -58,6 +58,8 @@ func (r *Run) regexpFindSubmatch(fr *frame, recv, subj value) value {
 			out[i] = m[i]
 		}
 		return out
+	case runesV:
+		return r.submatchVec(re, s)
 	case *Term:
 		if h := r.E.SubmatchHook; h != nil {
 			if v, ok := h(r, re, s); ok {
